@@ -127,6 +127,14 @@ CHECKS["C20"] = dict(
    note=COMMON_NOTE + "argparse is modelled only for canonical long options with the value as a separate argument (prefix abbreviations, '=' forms and short-option clusters are outside the model); TOML file parsing (tomllib) and project-root discovery are exercised end-to-end only.",
    design_ref="DESIGN.md section 6 C20, section 11")
 
+CHECKS["C18"] = dict(
+   technique="Coq: round-trip theorem by structural recursion over symbols (all kinds, interface sentinels, nested call targets); generic theorem that sorting by an identifying key is permutation-invariant (insertion sort, Sorted/Permutation uniqueness, string order lemmas); refutation for the name-only IR sort; model/rattr comparison of symbol documents; object round trips; hash-seed subprocess runs",
+   text=("Proved: C18_symbols_round_trip (every symbol kind x interface kind x nesting depth), C18_reserialising_reproduces_the_document, C18_sorting_by_identifying_key_is_canonical (any type, any key), C18_results_lists_canonical, "
+         "C18_ir_lists_canonical_partial (names pairwise distinct); C18_ir_lists_refuted (name ties; known finding KF_C18_1). The model's document is compared key-by-key, in order, with rattr's serialise on thousands of symbols harvested from real analyses "
+         "(every symbol and interface kind counted in the evidence); FileIr / FileResults / CacheableResults objects are round-tripped through the real serialise/deserialise; `-o results|ir|cacheable` run as subprocesses under several hash seeds must be byte-identical; emitted lists are checked sorted."),
+   note=COMMON_NOTE + "cattrs and json are exercised, not modelled; JSON byte syntax (indentation, escaping) is outside the model - the model is at the level of JSON values with key order.",
+   design_ref="DESIGN.md section 6 C18, section 11")
+
 NOT_YET = {}
 
 def main():
